@@ -1670,6 +1670,67 @@ def _fourier_case(gs, rng, Mcls, model, iso, kw, M, svec, angles, dim, seed, pos
     return ev
 
 
+def _search_fit_directions(ctx, rng, gs, viol):
+    """the library's own use of the geometry when it fits a model to data (Krige(..., fit_variogram=True) / set_condition(fit_variogram=True)):
+    for an anisotropic model the empirical variogram must be estimated along the model's MAIN AXES (the columns of the documented rotation
+    matrix: the directions along which the length scales len_scale * [1, anis] apply), because the fitted scales are assigned to them;
+    for an isotropic model no directions are used.  What the call hands to vario_estimate is captured."""
+    import gstools.krige.base as kb
+    ev = 0
+    for t in range(ctx.scale(10, 60)):
+        dim = int(rng.randint(2, 4))
+        ang = [float(a) for a in rng.uniform(-1.4, 1.4, dim * (dim - 1) // 2)]
+        if t % 4 == 0:
+            ang = [0.0] * len(ang)
+        anis = [float(a) for a in rng.choice([0.4, 0.6, 1.7, 2.5], size=dim - 1)] if t % 5 else [1.0] * (dim - 1)
+        model = gs.Exponential(dim=dim, len_scale=3.0, anis=anis, angles=ang)
+        cpos = rng.uniform(0, 30, size=(dim, 40))
+        cval = rng.randn(40)
+        captured = []
+        orig = kb.vario_estimate
+
+        def spy(*a, **kw):
+            captured.append(kw.get("direction"))
+            return orig(*a, **kw)
+        kb.vario_estimate = spy
+        try:
+            with warnings.catch_warnings():
+                warnings.simplefilter("ignore")
+                try:
+                    if t % 2:
+                        gs.krige.Ordinary(model, cpos, cval, fit_variogram=True)
+                    else:
+                        kr = gs.krige.Ordinary(model, cpos, cval)
+                        captured.clear()
+                        kr.set_condition(fit_variogram=True)
+                except (RuntimeError, ValueError):
+                    pass                      # the optimiser may fail on pure noise: the directions were handed over before
+        finally:
+            kb.vario_estimate = orig
+        ev += 1
+        case = dict(dim=dim, angles=ang, anis=anis)
+        if not captured:
+            _viol(viol, "fit-directions:not-estimated", "fit_variogram=True did not estimate a variogram", case)
+            continue
+        d = captured[-1]
+        if all(a == 1.0 for a in anis):
+            if d is not None:
+                _viol(viol, "fit-directions:isotropic-model", "directional estimation for an isotropic model", case)
+            continue
+        if d is None:
+            _viol(viol, "fit-directions:anisotropic-model-isotropic-estimate", "an anisotropic model is fitted to an isotropic (non-directional) variogram", case)
+            continue
+        d = np.atleast_2d(np.asarray(d, dtype=float))
+        want = ref_rotate(dim, ang).T            # row i = main axis i = column i of the documented rotation matrix
+        ok = d.shape == want.shape and all(min(np.max(np.abs(d[i] / np.linalg.norm(d[i]) - want[i])), np.max(np.abs(d[i] / np.linalg.norm(d[i]) + want[i]))) < 1e-12
+                                           for i in range(dim))
+        if not ok:
+            _viol(viol, "fit-directions:not-main-axes", "the variogram for fitting an anisotropic model is not estimated along the model's main axes "
+                  "(columns of the documented rotation matrix), although the fitted length scales are assigned to those axes", case,
+                  got=np.asarray(d).tolist(), want=want.tolist())
+    return ev
+
+
 def search(ctx, deep=False):
     import gstools as gs
     from gstools.tools import geometric as G
@@ -2010,6 +2071,7 @@ def search(ctx, deep=False):
     # ---------------- every pipeline x every geometry stratum x dim (own random stream: the sections around keep theirs)
     st_reps = ctx.scale(2, 12) * (2 if deep else 1)
     ev_sg, sg_cover, sg_skipped = _search_strata(ctx, np.random.RandomState(ctx.seed + 1202), gs, viol, st_reps, deep)
+    ev_sg += _search_fit_directions(ctx, np.random.RandomState(ctx.seed + 1203), gs, viol)
     ev += ev_sg
     sg_by_pipe = {}
     for (k_, s_), c_ in sorted(sg_cover.items()):
